@@ -1,0 +1,28 @@
+//go:build verif
+
+package context
+
+// Verification exports for property C12 (results independent of sharding / placement /
+// response order). Read-only views plus one setter that replaces the metadata-database
+// lookup of group-by tag values on a leaf. No-op for normal builds (build tag verif).
+
+// VerifSetGroupingTagValues installs, for each group-by tag key, the tag value id => tag value
+// map that collectGroupByTagValues would have collected from the leaf's metadata database,
+// through the same reduceTagValues step (which also signals collectGroupingTagsCompleted).
+func (ctx *LeafGroupingContext) VerifSetGroupingTagValues(tagValues []map[uint32]string) {
+	for idx := range tagValues {
+		ctx.reduceTagValues(idx, tagValues[idx])
+	}
+}
+
+// VerifState returns the completion bookkeeping of a metric data search context:
+// outstanding responses, remaining tolerated not-found answers, the recorded error message
+// ("" if none), whether the grouping aggregator has been built and whether the task completed.
+func (ctx *MetricContext) VerifState() (expectResults int, tolerantNotFounds int32, errMsg string, hasGroupAgg, completed bool) {
+	ctx.mutex.Lock()
+	defer ctx.mutex.Unlock()
+	if ctx.err != nil {
+		errMsg = ctx.err.Error()
+	}
+	return ctx.expectResults, ctx.tolerantNotFounds, errMsg, ctx.groupAgg != nil, ctx.completed.Load()
+}
